@@ -87,6 +87,14 @@ def analytic_fields(fd, variant=0):
     for k, v in comp:
         f[k] = v.copy()
     f["rho"] = rho0 * (1 + f["eps"])
+    # a generic symmetric energy-stress tensor (positive T_00, non-zero fluxes and stresses)
+    T = np.zeros((4, 4) + x.shape)
+    T[0, 0] = 1.3 + s(.3, .4, .5)
+    for i in range(1, 4):
+        T[0, i] = T[i, 0] = s(.2 * i, .3, .1 * i, 0.08)
+        for j in range(i, 4):
+            T[i, j] = T[j, i] = (0.4 if i == j else 0.0) + s(.1 * i, .2 * j, .3, 0.06)
+    f["Tdown4"] = T
     return f
 
 
@@ -102,6 +110,8 @@ INPUT_SETS = {
     "rho_eps": ["gammadown3", "Kdown3", "betaup3", "rho", "eps"],
     "vacuumlike": ["gammadown3", "Kdown3", "alpha", "betaup3", "dtbetaup3"],
     "minkowski": [],
+    # matter supplied as an energy-stress tensor
+    "fluid_T": ["gammadown3", "Kdown3", "alpha", "betaup3", "dtalpha", "dtbetaup3", "Tdown4"],
     # shift given by components WITHOUT betax (exposes the beta = 0 shortcut of s_to_st, see C01)
     # exact solutions of Einstein's equations shipped with aurel (inputs = the module's data(t, x, y, z), t = 1.5)
     "sol:Collins_Stewart": [], "sol:Non_diagonal": [], "sol:Rosquist_Jantzen": [],
@@ -425,9 +435,29 @@ class Monitor:
     time-series driver, every key the user gave importance 0 while cached —
     until the user gives it a non-zero importance or overwrites it."""
 
-    def __init__(self, rel):
+    def __init__(self, rel, watch_values=False):
         self.rel = rel
         self.frozen = {}
+        self.watch = {} if watch_values else None      # key -> (id, checksum) of every cached entry seen so far
+
+    def check_values(self, where):
+        """every array still cached that was cached before must have the bytes it had then
+        (an entry modified in place explains a history dependence; overlaps with C02)"""
+        out = []
+        if self.watch is None:
+            return out
+        seen = {}
+        for k, v in self.rel.data.items():
+            old = self.watch.get(k)
+            if old is not None and old[0] == id(v):
+                cs = checksum(v)
+                if cs != old[1]:
+                    out.append(("cached entry modified in place", k, where))
+                seen[k] = (id(v), cs)
+            else:
+                seen[k] = (id(v), checksum(v))
+        self.watch = seen
+        return out
 
     def freeze_all(self):
         for k, v in self.rel.data.items():
@@ -460,13 +490,14 @@ class Monitor:
         return out
 
 
-def execute(cfg, ops, on_value=None):
+def execute(cfg, ops, on_value=None, watch_values=False):
     """Runs the history on the real code.  Returns (rel, failures)."""
     import warnings
     rel, fields = build(cfg)
     tr = rel._tr
-    mon = Monitor(rel)
+    mon = Monitor(rel, watch_values)
     mon.freeze_all()          # build() ends with freeze_data()
+    mon.check_values(-1)
     scalar = cfg["N"] ** 3 * 8
     fails = []
     with warnings.catch_warnings(), np.errstate(all="ignore"):
@@ -523,6 +554,7 @@ def execute(cfg, ops, on_value=None):
                 del tr.children[:]
                 break
             fails += mon.check(i)
+            fails += mon.check_values(i)
             if tr.failures:
                 fails += [f + (i,) for f in tr.failures]
                 del tr.failures[:]
